@@ -18,19 +18,20 @@ import (
 	"verif/h/hx"
 	"verif/h/llvmx"
 	"verif/h/lx"
+	"verif/h/mut"
 )
 
 func TestMain(m *testing.M) { hx.Main(m, "C04", nil) }
 
 type checker struct {
-	m       *ir.Module
-	top     map[uintptr]string // defining top-level objects (globals, funcs, aliases, ifuncs, comdats, attr groups, numbered metadata)
-	types   map[string]types.Type
-	locals  map[*ir.Func]map[uintptr]bool
-	blocks  map[*ir.Func]map[uintptr]bool
-	seen    map[uintptr]bool
-	errs    []string
-	nrefs   int
+	m      *ir.Module
+	top    map[uintptr]string // defining top-level objects (globals, funcs, aliases, ifuncs, comdats, attr groups, numbered metadata)
+	types  map[string]types.Type
+	locals map[*ir.Func]map[uintptr]bool
+	blocks map[*ir.Func]map[uintptr]bool
+	seen   map[uintptr]bool
+	errs   []string
+	nrefs  int
 }
 
 func ptrOf(x any) uintptr { return reflect.ValueOf(x).Pointer() }
@@ -353,6 +354,41 @@ func TestCorpora(t *testing.T) {
 		}
 		hx.Eval(1)
 		if checkText(rt, test, fmt.Sprintf("llvm-stress -seed %d -size %d", seed, size), x, false) {
+			hx.NonTrivial(x)
+		}
+	})
+}
+
+func TestClangCorpus(t *testing.T) {
+	const test = "ClangCorpus"
+	hx.Rule(test, "clang-14 output for corpus/src x corpus.ClangVariants (see C01): same identity oracle")
+	for i, c := range corpus.ClangCases() {
+		if !hx.Mine(i) {
+			continue
+		}
+		x := c.Text()
+		if x == "" {
+			hx.Discard("clang_rejects_combination")
+			continue
+		}
+		hx.Eval(1)
+		if checkText(t, test, "clang-14 "+c.Name(), x, false) {
+			hx.NonTrivial("clang/" + c.Name())
+		}
+	}
+}
+
+func TestMutatedCorpus(t *testing.T) {
+	const test = "MutatedCorpus"
+	hx.Rule(test, "repository testdata and llvm-stress programs changed by 1..3 drawn text mutations (h/mut: keywords exchanged inside their class, flags inserted or dropped, boundary integers, quoted identifiers, moved top-level definitions, spliced-in definitions of other modules, duplicated attachments), kept when llvm-as and the parser accept them: same identity oracle")
+	hx.Check(t, test, hx.N(60, 3000), func(rt *rapid.T) {
+		x, desc, ok := mut.Valid(rt)
+		if !ok {
+			hx.Discard("mutated_text_not_valid_or_not_accepted")
+			return
+		}
+		hx.Eval(1)
+		if checkText(rt, test, desc, x, false) {
 			hx.NonTrivial(x)
 		}
 	})
